@@ -365,3 +365,91 @@ Proof.
     specialize (Hnc Hne). apply Z.eqb_neq in Hnc. rewrite Hnc.
     destruct ((p_auth pol =? k_require_any K) || (p_auth pol =? k_require_verify K)); reflexivity.
 Qed.
+
+(* ---- central theorem: prop_C44 holds of the model on every well-formed input outside finding 1 ---- *)
+Lemma decrypt_cols col ks key t :
+  decrypt_ticket (cmac col) (cctr ks) key t = if tag_ok t col then unmarshal (ticket_plain t ks) else None.
+Proof.
+  unfold decrypt_ticket, tag_ok, cmac, cctr, ticket_plain, ticket_tag, ticket_body.
+  destruct (blen t <? 48) eqn:E.
+  - apply Z.ltb_lt in E. replace (48 <=? blen t) with false by (symmetry; apply Z.leb_gt; lia). reflexivity.
+  - apply Z.ltb_ge in E. replace (48 <=? blen t) with true by (symmetry; apply Z.leb_le; lia). cbn [andb].
+    destruct (bytes_eqb (skipn (length t - 32) t) col); reflexivity.
+Qed.
+Lemma buf_cols col ks key t : tag_ok t col = false -> ticket_buf_after (cmac col) (cctr ks) key t = t.
+Proof.
+  unfold ticket_buf_after, tag_ok, cmac, ticket_tag. intro H. destruct (blen t <? 48) eqn:E; [reflexivity|].
+  apply Z.ltb_ge in E. replace (48 <=? blen t) with true in H by (symmetry; apply Z.leb_le; lia). cbn [andb] in H.
+  rewrite H. reflexivity.
+Qed.
+
+Lemma xor_length : forall a b, length (xor_bytes a b) = length a.
+Proof. induction a as [|x a IH]; intros [|y b]; simpl; try reflexivity. rewrite IH. reflexivity. Qed.
+Lemma xor_invol : forall a b, (length a <= length b)%nat -> xor_bytes (xor_bytes a b) b = a.
+Proof.
+  induction a as [|x a IH]; intros [|y b] H; simpl in *; try reflexivity.
+  rewrite IH by lia. rewrite Z.lxor_assoc, Z.lxor_nilpotent, Z.lxor_0_r. reflexivity.
+Qed.
+
+Lemma central_op1 key t col ks ikey it ist :
+  let i := VL [VZ 1; VB key; VB t; VB col; VB ks; VB ikey; VB it; ist] in
+  wf_C44 i = true -> prop_C44 i (run_C44 i) = true.
+Proof.
+  intros i Hwf. subst i. cbn [wf_C44] in Hwf. destruct (dec_sess ist) as [s0|] eqn:Es; [|discriminate].
+  unfold run_C44, prop_C44. rewrite Es, decrypt_cols.
+  set (own := bytes_eqb key ikey && bytes_eqb t it) in *.
+  apply andb_true_iff in Hwf. destruct Hwf as [H1 H2].
+  destruct (tag_ok t col) eqn:Et.
+  - cbn [implb] in H1. rewrite H1 in *. cbn [implb andb] in H2.
+    destruct (unmarshal (ticket_plain t ks)) as [s|] eqn:Eu; [|discriminate].
+    unfold enc_sess in *. cbn [app]. cbv iota beta. rewrite H2. reflexivity.
+  - rewrite buf_cols by exact Et. destruct own; [discriminate|]. cbn [negb andb orb].
+    unfold bytes_eqb. apply list_Z_eqb_refl.
+Qed.
+
+Lemma central_op2 key iv st ks col :
+  let i := VL [VZ 2; VB key; VB iv; st; VB ks; VB col] in
+  wf_C44 i = true -> prop_C44 i (run_C44 i) = true.
+Proof.
+  intros i Hwf. subst i. cbn [wf_C44] in Hwf. destruct (dec_sess st) as [s|] eqn:Es; [|discriminate].
+  repeat (apply andb_true_iff in Hwf; let W := fresh "W" in destruct Hwf as [Hwf W]).
+  apply Z.eqb_eq in W1, W0. apply Z.leb_le in W.
+  unfold run_C44, prop_C44. rewrite Es. unfold encrypt_ticket, cmac, cctr, enc_key.
+  set (ct := xor_bytes (marshal s) ks).
+  assert (Hiv : length iv = 16%nat) by (unfold blen in W1; lia).
+  assert (Hcol : length col = 32%nat) by (unfold blen in W0; lia).
+  assert (Hlen : (length ((iv ++ ct) ++ col) - 32 = length (iv ++ ct))%nat) by (rewrite app_length; lia).
+  assert (F1 : firstn 16 ((iv ++ ct) ++ col) = iv).
+  { rewrite <- app_assoc. apply firstn_app_exact. lia. }
+  rewrite F1. unfold bytes_eqb at 1. rewrite list_Z_eqb_refl. rewrite W1. cbn [andb Z.eqb Pos.eqb].
+  unfold tag_ok, ticket_plain. rewrite Hlen.
+  rewrite (skipn_app_exact (iv ++ ct) col) by reflexivity.
+  rewrite (firstn_app_exact (iv ++ ct) col) by reflexivity.
+  rewrite (skipn_app_exact iv ct) by lia.
+  unfold bytes_eqb. rewrite list_Z_eqb_refl.
+  replace (48 <=? blen ((iv ++ ct) ++ col)) with true
+    by (symmetry; apply Z.leb_le; unfold blen; rewrite !app_length; lia).
+  cbn [andb]. unfold ct. rewrite xor_invol by (unfold blen in W; lia).
+  rewrite unmarshal_marshal by exact Hwf. apply sess_eqb_refl.
+Qed.
+
+Lemma central_op3 k tb p col ks :
+  let i := VL [VZ 3; k; VL tb; p; VB col; VB ks] in
+  wf_C44 i = true -> kf_C44 i = 0 -> prop_C44 i (run_C44 i) = true.
+Proof.
+  intros i Hwf Hkf. subst i. cbn [wf_C44] in Hwf.
+  destruct (dec_consts k) as [K|] eqn:Ek; [|discriminate].
+  destruct (all_some (map dec_pair tb)) as [table|] eqn:Et; [|discriminate].
+  destruct (dec_policy p) as [pol|] eqn:Ep; [|discriminate].
+  apply (prop_C44_of_model_policy k tb p col ks K table pol Ek Et Ep Hkf).
+Qed.
+
+Ltac crush_shape H := repeat match type of H with
+  | (match ?x with _ => _ end) = true => is_var x; destruct x; try discriminate H
+  end.
+
+Theorem prop_C44_of_model : forall i, wf_C44 i = true -> kf_C44 i = 0 -> prop_C44 i (run_C44 i) = true.
+Proof.
+  intros i Hwf Hkf. pose proof Hwf as Hs. unfold wf_C44 in Hs. crush_shape Hs;
+    first [ apply central_op1; exact Hwf | apply central_op2; exact Hwf | apply central_op3; [exact Hwf|exact Hkf] ].
+Qed.
